@@ -25,7 +25,7 @@ def cases(tier):
     out = []
     depths = [0, 1, 2, 3]
     for role in ("argument", "kwarg", "callee"):
-        for flavour in ("plain", "pyname", "dotted", "dotted3", "dotted3same", "backquoted", "unicode"):
+        for flavour in ("plain", "pyname", "dotted", "dotted3", "dotted3same", "dotted4", "backquoted", "unicode"):
             if role in ("argument", "kwarg") and flavour.startswith("dotted"):
                 continue
             if role == "callee" and flavour in ("backquoted", "unicode"):
@@ -103,6 +103,10 @@ def harness(env, case):
             return types.SimpleNamespace(fn=obj)
         if flavour == "dotted3":
             return types.SimpleNamespace(sub=types.SimpleNamespace(fn=obj))
+        if flavour == "dotted4":
+            # m.fn exists too (a decoy with another value): m.a.b.fn must not resolve to m.b.fn / m.fn
+            decoy = (lambda a: a + val("decoy_attr")) if role == "callee" else val("decoy_attr")
+            return types.SimpleNamespace(fn=decoy, b=types.SimpleNamespace(fn=decoy), a=types.SimpleNamespace(fn=decoy, b=types.SimpleNamespace(fn=obj)))
         if flavour == "dotted3same":
             return types.SimpleNamespace(fn=types.SimpleNamespace(fn=obj))  # an inner component spelt like the function
         return obj
@@ -134,7 +138,7 @@ def harness(env, case):
 
     if bits["extra"]:
         extra[head] = bound("extra")
-    name_in_formula = {"plain": base, "pyname": base, "backquoted": f"`{base}`", "dotted": "m.fn", "dotted3": "m.sub.fn", "dotted3same": "m.fn.fn", "unicode": base}[flavour]
+    name_in_formula = {"plain": base, "pyname": base, "backquoted": f"`{base}`", "dotted": "m.fn", "dotted3": "m.sub.fn", "dotted3same": "m.fn.fn", "dotted4": "m.a.b.fn", "unicode": base}[flavour]
     formula = {"argument": f"y ~ rec(x, {name_in_formula})", "kwarg": f"y ~ rec(x, v={name_in_formula})", "callee": f"y ~ {name_in_formula}(x)"}[role]
     # nested callers: frame i has its own globals dict; decoys at every depth other than the selected one
     result = {}
